@@ -1,5 +1,7 @@
 """C07 — leader apply, follower replication and restart replay yield the same state."""
 import json
+import time
+import glob
 import os
 import random
 import shutil
@@ -104,6 +106,46 @@ def one_sequence(args):
             viols.append(("leader-vs-follower", [("/config_history_sequence/next_id", seq_l, seq_f)]))
         if seq_f is not None and seq_r is not None and seq_r < seq_f:
             viols.append(("follower-vs-replay", [("/config_history_sequence/next_id", seq_f, seq_r)]))
+        # I: a node that never saw the log: the leader's snapshot is installed the way the raft core does it (create, write, finalize)
+        if seed % 3 == 0:
+            sl.call("actor_barrier", ms=30)
+            cr = sl.call("compact")
+            snaps = sorted(glob.glob(os.path.join(dl, "snapshot_*")), key=lambda p: int(os.path.basename(p).split("_")[1]) if os.path.basename(p).split("_")[1].isdigit() else -1)
+            if cr.get("ok") and snaps:
+                dump_l2 = settled_dump(sl, gen)
+                di = os.path.join(wd, "I%d" % seed)
+                si = noderig.NodeSession(di, snapshot_size=10000, auto_init=False)
+                try:
+                    si.call("preamble", term=1, voted_for=2, members=[1])      # its own membership differs from the snapshot's
+                    a = si.call("install_snapshot", path=snaps[-1], index=cr["index"], term=cr["term"])
+                    if not a.get("ok"):
+                        viols.append(("installed-vs-leader", [("/install/error", "ok", json.dumps(a)[:200])]))
+                    else:
+                        res["snapshot_installed"] = True
+                        time.sleep(0.2)
+                        dump_i = settled_dump(si, gen)
+                        d4 = noderig.diff_dumps(dump_l2, dump_i)
+                        if d4:
+                            viols.append(("installed-vs-leader", d4))
+                        mi, ml = si.call("membership"), sl.call("membership")
+                        if mi.get("ok") and ml.get("ok") and (mi.get("members"), mi.get("addrs")) != (ml.get("members"), ml.get("addrs")):
+                            viols.append(("installed-vs-leader", [("/membership/members", [ml.get("members"), ml.get("addrs")], [mi.get("members"), mi.get("addrs")])]))
+                        # and the installed node restarts
+                        t_w = time.time()
+                        while noderig.applied_index_on_disk(di) != cr["index"] and time.time() - t_w < 10:
+                            time.sleep(0.05)
+                        si.kill()
+                        si = noderig.NodeSession(di, snapshot_size=10000, auto_init=False)
+                        dump_ir = settled_dump(si, gen)
+                        d5 = noderig.diff_dumps(dump_i, dump_ir)
+                        if d5:
+                            viols.append(("installed-vs-replay", d5))
+                        mir = si.call("membership")
+                        if mir.get("ok") and mi.get("ok") and (mir.get("members"), mir.get("addrs")) != (mi.get("members"), mi.get("addrs")):
+                            viols.append(("installed-vs-replay", [("/membership/members", [mi.get("members"), mi.get("addrs")], [mir.get("members"), mir.get("addrs")])]))
+                finally:
+                    si.kill()
+                    shutil.rmtree(di, ignore_errors=True)
         out = []
         for pair, diffs in viols:
             meta = [x for x in diffs if x[0].startswith("/naming/") and "/metadata" in x[0]]
@@ -264,6 +306,8 @@ def run(tier, seed):
                 out.violation(v["signature"], v["witness"])
             if r.get("compared_items", 0) > 0 and r["subkinds"] >= 8 and not [v for v in r.get("violations", []) if not v["signature"].endswith("instance-metadata")]:
                 out.shape("subkinds%d/%s/n%d" % (r["subkinds"] // 4 * 4, r.get("split_pattern"), r["n"] // 100))
+                if r.get("snapshot_installed"):
+                    out.shape("snapshot-installed-on-fresh-node/subkinds%d" % (r["subkinds"] // 4 * 4))
             if len(out.samples) < 3:
                 out.samples.append({k: r[k] for k in ("seed", "n", "kinds", "subkinds", "split_pattern", "compared_items") if k in r})
         out.extra["kinds_seen"] = sorted(kinds)
